@@ -143,6 +143,47 @@ def pkg_exception_clause(exc):
     return None
 
 
+class CaseTimeout(BaseException):
+    """A single case exceeded its wall-clock allowance: counted as excluded (inconclusive), never a verdict."""
+
+
+CASE_LIMIT = {"quick": 90, "thorough": 900}
+_watch = {"armed": False}
+
+
+def _on_alarm(signum, frame):
+    if _watch["armed"]:
+        _watch["armed"] = False
+        raise CaseTimeout()
+
+
+def guarded_case(mod, case, tier, stats):
+    """run_check under a per-case watchdog (pure-Python package code is interruptible); returns the Result or None when
+    the case was skipped or timed out (both counted in stats.excluded)."""
+    import signal
+
+    try:
+        signal.signal(signal.SIGALRM, _on_alarm)
+        _watch["armed"] = True
+        signal.setitimer(signal.ITIMER_REAL, CASE_LIMIT.get(tier, 90))
+    except (ValueError, AttributeError):  # not in the main thread / no SIGALRM: run without watchdog
+        _watch["armed"] = False
+    try:
+        try:
+            return run_check(mod, case)
+        finally:
+            _watch["armed"] = False
+            try:
+                signal.setitimer(signal.ITIMER_REAL, 0)
+            except (ValueError, AttributeError):
+                pass
+    except Skip as s:
+        stats.excluded[s.reason] += 1
+    except CaseTimeout:
+        stats.excluded["case_timeout"] += 1
+    return None
+
+
 def run_check(mod, case):
     """mod.check(case) with package exceptions turned into violations."""
     try:
@@ -249,14 +290,12 @@ def shard_worker(args):
                 stats.timeouts += 1
                 return
             try:
-                res = run_check(mod, case)
-            except Skip as s:
-                stats.excluded[s.reason] += 1
-                return
+                res = guarded_case(mod, case, tier, stats)
             except Violation as v:
                 state["fail"] = _fail_record(case, v)
                 raise
-            stats.record(case, res)
+            if res is not None:
+                stats.record(case, res)
 
         try:
             test()
@@ -287,15 +326,13 @@ def job_worker(args):
                 stats.timeouts += 1
                 break
             try:
-                res = run_check(mod, case)
-            except Skip as s:
-                stats.excluded[s.reason] += 1
-                continue
+                res = guarded_case(mod, case, tier, stats)
             except Violation as v:
                 if v.clause not in fails:
                     fails[v.clause] = _fail_record(case, v)
                 continue
-            stats.record(case, res)
+            if res is not None:
+                stats.record(case, res)
         return {"stats": stats.export(), "fails": list(fails.values())}
     except Exception:
         return {"error": traceback.format_exc()}
